@@ -78,11 +78,17 @@ type scriptResp struct {
 	reset   bool
 }
 
+// responderHook, when set, runs after a request has arrived and before the scripted response is written
+var responderHook func(k int)
+
 func installResponder(h host.Host, script []scriptResp) *int {
 	served := 0
 	h.SetStreamHandler(certexchange.FetchProtocolName(verifNet), func(s network.Stream) {
 		k := served
 		served++
+		if responderHook != nil {
+			responderHook(k)
+		}
 		var req certexchange.Request
 		br := bufio.NewReader(s)
 		if err := req.UnmarshalCBOR(br); err != nil || k >= len(script) || script[k].reset {
@@ -433,6 +439,63 @@ func runC16(o *out, r *rng, thorough bool, replay string) {
 			}
 			o.count("poll", fmt.Sprint(in), deviates)
 		}
+		_ = mn.Close()
+	}
+	// ---- the node's own GPBFT stores the certificate that is being requested while the request is in flight, and the
+	// (honest) response carries that certificate and its successors: the poller advances by the whole valid prefix and
+	// the peer is not branded
+	scen := 6
+	if thorough {
+		scen = 40
+	}
+	for si := 0; si < scen; si++ {
+		g := newCertGen(r, 3+r.intn(3), 0)
+		initial := g.table
+		total := 5 + r.intn(4)
+		var honest []*certs.FinalityCertificate
+		for i := 0; i < total; i++ {
+			honest = append(honest, g.makeCert())
+		}
+		have := r.intn(total - 3)
+		extra := 2 + r.intn(2)
+		mn := mocknetwork.New()
+		sh, err := mn.GenPeer()
+		must(err)
+		ch, err := mn.GenPeer()
+		must(err)
+		must(mn.LinkAll())
+		must(mn.ConnectAllButSelf())
+		cstore, _ := newMemStore(ctx, 0, initial)
+		for _, c := range honest[:have] {
+			must(cstore.Put(ctx, c))
+		}
+		installResponder(sh, []scriptResp{{pending: uint64(have + extra), certs: honest[have : have+extra]}})
+		responderHook = func(k int) {
+			if k == 0 {
+				_ = cstore.Put(ctx, honest[have]) // the local instance `have` finished meanwhile
+			}
+		}
+		client := &certexchange.Client{Host: ch, NetworkName: verifNet, RequestTimeout: 5 * time.Second}
+		p, err := polling.NewPoller(ctx, client, cstore, g.backend)
+		must(err)
+		res, err := p.Poll(ctx, sh.ID())
+		responderHook = nil
+		in := map[string]any{"client_had": have, "response_certs": extra, "scenario": "certificate stored locally while the request for it was in flight"}
+		if err != nil {
+			o.violate("poll never fails internally", "poller-internal-error", in, err.Error())
+		} else {
+			if res.Status == polling.PollIllegal {
+				o.violate("the poller classifies the peer according to what it sent", "poller-honest-peer-branded", in, fmt.Sprintf("an honest response was classified %s: %v", res.Status, res.Error))
+			}
+			if p.NextInstance != uint64(have+extra) {
+				o.violate("the poller stores the certificates that validate against its own current power table and advances exactly by that valid prefix", "poller-valid-prefix-not-stored", in,
+					fmt.Sprintf("valid prefix reaches instance %d, poller is at %d (status %s)", have+extra, p.NextInstance, res.Status))
+			}
+			if l := cstore.Latest(); l == nil || l.GPBFTInstance != uint64(have+extra-1) {
+				o.violate("the poller stores the valid prefix", "poller-valid-prefix-not-stored", in, "store head differs from the end of the valid prefix")
+			}
+		}
+		o.count("poll-local-put-in-flight", fmt.Sprint(in), true)
 		_ = mn.Close()
 	}
 	o.finish("From F3 Require Import GoInt ServerGen Exchange.")
